@@ -51,7 +51,7 @@ def allowed_pcs(case, det):
                 allowed |= adm("Fee", f)
     elif det in ("is-updatable", "unprotected-updatable", "is-deletable", "unprotected-deletable"):
         oc = 4 if "updatable" in det else 5
-        allowed = adm("Kind", (6, oc, 77)) | adm("Kind", (6, oc, 0))
+        allowed = adm("Kind", (6, oc, 77))
         if det.startswith("unprotected"):
             allowed = allowed & adm("Sender", A("ATTACKER"))
     elif det == "group-size-check":
